@@ -53,6 +53,7 @@ def run(ck):
     for cls in insts:
         one(ck, cls)
     reentrancy(ck, insts)
+    stays_installed_during_stop(ck)
 
 
 def reentrancy(ck, insts):
@@ -146,6 +147,31 @@ def one(ck, cls):
             okl = bool(cc) and gl.must_pass(set(gl.sites_of_nodes(cc)))
         ck.ob("C04-O2", sitestr(mv, q), okm and sender and okl, "%s: with an application object aboutToQuit -> resetOwnThread() is connected on every path" % tag if (okm and sender and okl) else
               "%s: aboutToQuit connection: always-made=%s, sender-is-qApp=%s, slot-resets=%s" % (tag, okm, sender, okl), key="moveToOwnThread|aboutToQuit")
+    if len(quitc) == 1:
+        # where the hook runs: a functor connected with a context object is queued into the context object's thread. A thread object
+        # created by moveToOwnThread() called from a secondary thread lives in that thread - which may never run an event loop - unless it
+        # is re-homed to the application's thread first (or the connection has no context object / is explicitly direct)
+        q = quitc[0]
+        qa = [a for a in q.get("args", []) if a.get("k") != "defaultarg"]
+        has_ctx = len(qa) >= 4 and any(x.get("k") == "lambda" for x in walk(qa[3])) or (len(qa) >= 4 and not any(x.get("k") == "lambda" for x in walk(qa[2])))
+        direct = any(const_int(a) == 1 and "ConnectionType" in (skip_copies(a).get("type") or "") for a in qa[3:])
+        if has_ctx and not direct:
+            ctx = skip_copies(qa[2])
+            ctx_app = is_call(ctx, "QCoreApplication::instance")
+            ctx_is_thread = any(is_this_field(x, T) for x in walk(ctx))
+            moves = [n for n in mv.calls() if name_is(n.get("callee"), ("QObject::moveToThread", "moveToThread")) and any(is_this_field(x, T) for x in walk(n.get("obj") or {}))
+                     and any(is_call(x, "QCoreApplication::instance") or (x.get("k") == "ref" and (x.get("name") or "") == "qApp") for x in walk(n.get("args", [{}])[0]))]
+            differ = lambda n: True if (n.get("k") == "binop" and n.get("op") == "!=" and all(any(is_call(x, ("QObject::thread", "thread")) for x in walk(y or {})) for y in (n.get("lhs"), n.get("rhs")))) else \
+                (False if (n.get("k") == "binop" and n.get("op") == "==" and all(any(is_call(x, ("QObject::thread", "thread")) for x in walk(y or {})) for y in (n.get("lhs"), n.get("rhs")))) else None)
+            keep2 = g.projector(atoms((lambda n: is_this_field(n, T) or (n.get("conv") and is_this_field(n.get("obj"), T)), False), (isapp, True)))
+            def keep3(e, keep2=keep2, pr=g.projector(differ)):
+                return keep2(e) and pr(e)
+            rehomed = bool(moves) and g.must_pass(set(g.sites_of_nodes(moves)), keep=keep3, to=g.site_of(q))
+            okctx = ctx_app or (ctx_is_thread and rehomed)
+            ck.ob("C04-O2", sitestr(mv, q), True if okctx else False if ctx_is_thread else None,
+                  "%s: the quit hook's context object lives in the application's thread (it is re-homed there before the connection is made)" % tag if okctx else
+                  "%s: the quit hook is queued into the thread its context object %s lives in, i.e. the thread that called moveToOwnThread(); called from a secondary thread without an event loop "
+                  "the hook never runs: exec() returns with the backlog undelivered and the worker still running" % (tag, describe(ctx)[:30]), key="moveToOwnThread|hook-thread")
     fin = [n for n in conns if any(x.get("k") == "ref" and (x.get("name") or "").endswith("QThread::finished") for x in walk(n["args"][1]))]
     dels = []
     for n in fin:
@@ -323,3 +349,24 @@ def loop_bounded(fn, loop):
                 return True, "guard %s" % (x.get("callee") or "").split("::")[-1]
     reads = sorted({describe(x) for c in conds if isinstance(c, dict) for x in walk(c) if x.get("k") in ("member", "call")})
     return False, "condition reads only %s" % reads[:3]
+
+
+def stays_installed_during_stop(ck):
+    """messages logged while asynchronous logging is being stopped are delivered (by the worker before it ends, synchronously afterwards):
+    the stop path — resetOwnThread() and whatever overrides or wraps it — never changes Qt's message handler"""
+    F = ck.facts
+    ck.rule("C04-O8", "no function called resetOwnThread (the base one or an override) and nothing they reach calls qInstallMessageHandler: the logger stays Qt's message handler for the whole stop")
+    stops = [f for f in F.fns.values() if f.body is not None and f.name.split("::")[-1] == "resetOwnThread" and "/src/qtlogger/" in (f.file or "")]
+    ck.require(stops, "no resetOwnThread found")
+    reach = F.reachable_from(stops, virtual=True)
+    bad = 0
+    for i_ in sorted(reach):
+        f_ = F.fns.get(i_)
+        if f_ is None or f_.body is None or "/src/qtlogger/" not in (f_.file or ""):
+            continue
+        for q in f_.calls("qInstallMessageHandler"):
+            bad += 1
+            ck.ob("C04-O8", sitestr(f_, q), False, "%s, part of the stop path, changes Qt's message handler (%s): the handler is process-wide, so every message any thread logs while the backlog drains "
+                  "goes to that handler and never reaches the sinks" % (f_.name.split("QtLogger::")[-1], describe(q)[:50]), key="stop|uninstalls|%s" % f_.name.split("::")[-1])
+    if not bad:
+        ck.ob("C04-O8", sitestr(stops[0]), True, "the %d resetOwnThread functions and the %d functions they reach never call qInstallMessageHandler" % (len(stops), len(reach)), key="stop|uninstalls|none")
